@@ -3,6 +3,7 @@ pub mod c02;
 pub mod c03;
 pub mod c04;
 pub mod c06;
+pub mod c10;
 pub mod c11;
 pub mod c12;
 pub mod c13;
@@ -18,6 +19,7 @@ pub fn lookup(id: &str) -> Option<(&'static PropSpec, fn(&RunCfg) -> Report)> {
         "C03" => (&c03::SPEC, c03::run as fn(&RunCfg) -> Report),
         "C04" => (&c04::SPEC, c04::run as fn(&RunCfg) -> Report),
         "C06" => (&c06::SPEC, c06::run as fn(&RunCfg) -> Report),
+        "C10" => (&c10::SPEC, c10::run as fn(&RunCfg) -> Report),
         "C11" => (&c11::SPEC, c11::run as fn(&RunCfg) -> Report),
         "C12" => (&c12::SPEC, c12::run as fn(&RunCfg) -> Report),
         "C13" => (&c13::SPEC, c13::run as fn(&RunCfg) -> Report),
